@@ -173,10 +173,12 @@ def default_ops(rep, F, E, rule='PROV-DEFAULTOPS'):
             continue
         for bid, t in f.calls():
             g = F.fns.get(cres(t))
-            if g is None or not g.name.endswith('impl_division') or len(t['args']) < 4:
+            if g is None or not g.name.endswith('impl_division') or len(t['args']) < 2:
                 continue
             n += 1
-            srcs = E.arg_prov(f, t, 3).all()
+            # the precision is the u64 parameter of the kernel (the last one), wherever the operands are carried
+            pi_ = [i for i, ty in enumerate(g.argtys()) if ty == 'u64']
+            srcs = E.arg_prov(f, t, pi_[-1] if pi_ else 3).all()
             ok, bad = only_consts(srcs, [C_PREC], allow_lits=())
             key = '%s->impl_division:max_precision' % f.key
             if ok and not bad:
@@ -189,16 +191,18 @@ def default_ops(rep, F, E, rule='PROV-DEFAULTOPS'):
             continue
         env = E.local[f.name]
         hit = False
+        pi_ = [i for i, ty in enumerate(f.argtys(), 1) if ty == 'u64']
+        PP = 'param:%d' % (pi_[-1] if pi_ else 4)
         for bid, st in f.stmts():
             rv = st['rv']
             if rv['r'] == 'bin' and rv['bop'] in ('Lt', 'Le', 'Gt', 'Ge', 'Eq', 'Ne'):
                 srcs = E.read_op(f, env, rv['a']).all() | E.read_op(f, env, rv['b']).all()
-                if any(s == 'param:4' for s in srcs):
+                if any(s == PP for s in srcs):
                     hit = True
         for bid, t in f.calls():
             if re.search(r'cmp::Partial(Ord|Eq)::|cmp::Ord::', cdef(t)):
                 srcs = set().union(*[E.arg_prov(f, t, i).all() for i in range(len(t['args']))])
-                if 'param:4' in srcs:
+                if PP in srcs:
                     hit = True
         n += 1
         if hit:
